@@ -218,6 +218,44 @@ let monitor_obs (m : mon) (o : obs) =
         | _ -> ()
       end) o.calls;
   List.iter (fun (id, s) -> Hashtbl.replace m.votes ("partial-of/" ^ id) (field s "partial")) up;
+  (* C16 stickiness: a node that has heard from a leader within the election timeout (contact=1 before the
+     delivery), or is a leader with a valid lease, grants no vote - prevote or real *)
+  List.iter (fun (cid, _, dst, st, req, resp) ->
+      let key = Printf.sprintf "rv-answered/%d" cid in
+      if st = "A" && not (Hashtbl.mem m.votes key) then begin
+        match String.split_on_char ' ' req, String.split_on_char '/' resp with
+        | ["RV"; cand; term; _; _; pv], [_; "1"] ->
+            Hashtbl.replace m.votes key "1";
+            if pv = "1" then Hashtbl.replace m.votes (Printf.sprintf "pv-grant/%s/%s/%s" cand term dst) "1";
+            let was k = Hashtbl.find_opt m.votes (k ^ dst) = Some "1" in
+            if was "contact-of/" || was "lease-of/" then
+              violate m "C16" (Printf.sprintf "node %s granted a %s of term %s to node %s although it %s"
+                                 dst (if pv = "1" then "prevote" else "vote") term cand
+                                 (if was "lease-of/" then "is a leader with a valid lease" else "had heard from a leader within the election timeout"))
+        | "RV" :: _, _ -> Hashtbl.replace m.votes key "1"
+        | _ -> ()
+      end) o.calls;
+  (* C16 prevote: a follower or pre-candidate starts a real election (role C, term + 1) only after a majority of the
+     voters of its configuration (itself included) granted it a prevote for that term *)
+  List.iter (fun (id, s) ->
+      let role = field s "role" and t = int_field s "term" in
+      (match Hashtbl.find_opt m.votes ("role-of/" ^ id), Hashtbl.find_opt m.votes ("term-of/" ^ id) with
+       | Some pr, Some pt when (pr = "F" || pr = "P") && role = "C" && t = int_of_string pt + 1 ->
+           let vs = conf_voters (field s "conf") in
+           (* the reply that completes the quorum may belong to a prevote round started one term earlier: its
+              request term (old term + 1) equals the current term, so it is not stale for sendRequestVote *)
+           let grants = List.filter (fun v -> v = id || Hashtbl.mem m.votes (Printf.sprintf "pv-grant/%s/%d/%s" id t v)
+                                              || Hashtbl.mem m.votes (Printf.sprintf "pv-grant/%s/%d/%s" id (t - 1) v)) vs in
+           if List.length vs > 1 && 2 * List.length grants <= List.length vs then
+             violate m "C16" (Printf.sprintf "node %s became a candidate of term %d with prevotes from %d of the %d voters of %s"
+                                id t (List.length grants) (List.length vs) (field s "conf"))
+       | _ -> ());
+      Hashtbl.replace m.votes ("role-of/" ^ id) role;
+      Hashtbl.replace m.votes ("term-of/" ^ id) (string_of_int t);
+      Hashtbl.replace m.votes ("contact-of/" ^ id) (field s "contact");
+      Hashtbl.replace m.votes ("lease-of/" ^ id) (if role = "L" then field s "lease" else "0")) up;
+  List.iter (fun (id, s) -> if s = "down" || s = "frozen" then begin
+      Hashtbl.remove m.votes ("role-of/" ^ id); Hashtbl.remove m.votes ("contact-of/" ^ id); Hashtbl.remove m.votes ("lease-of/" ^ id) end) o.nodes;
   (* C02: one leader per term *)
   let see_leader term id =
     match Hashtbl.find_opt m.leaders term with
